@@ -11,8 +11,9 @@ F_DH = "src/tls_dh.rs"
 F_EC = "src/tls_ec.rs"
 F_SH = "src/tls_sign_hash.rs"
 
-SPEC = r"""
+SPEC_CORE = r"""
 pub open spec fn is_incomplete<T>(r: IResult<&[u8], T>) -> bool { r is Err && r->Err_0 is Incomplete }
+
 pub open spec fn be16s(s: Seq<u8>, o: int) -> int { (s[o] as int) * 256 + (s[o + 1] as int) }
 
 // nom-derive's Parse for the primitive integers is nom's big-endian reader (ASSUMED; the Kani leaves of C13 assert
@@ -27,6 +28,49 @@ pub open spec fn lp_len(i: Seq<u8>, o: int, w: int) -> int { if w == 1 { i[o] as
 pub open spec fn lp_ok(i: Seq<u8>, o: int, w: int) -> bool { 0 <= o && i.len() >= o + w && i.len() >= o + w + lp_len(i, o, w) }
 pub open spec fn lp_next(i: Seq<u8>, o: int, w: int) -> int { o + w + lp_len(i, o, w) }
 pub open spec fn lp_data(i: Seq<u8>, o: int, w: int) -> Seq<u8> { i.subrange(o + w, o + w + lp_len(i, o, w)) }
+
+// subrange shift: a length-prefixed field at offset p of i.subrange(o, len) is the field at o + p of i
+pub proof fn lemma_lp_shift(i: Seq<u8>, o: int, p: int, w: int)
+    requires 0 <= o <= i.len(), 0 <= p, w == 1 || w == 2,
+    ensures ({ let s = i.subrange(o, i.len() as int);
+        lp_ok(s, p, w) == lp_ok(i, o + p, w)
+        && (lp_ok(s, p, w) ==> lp_len(s, p, w) == lp_len(i, o + p, w) && lp_data(s, p, w) =~= lp_data(i, o + p, w)
+            && lp_next(s, p, w) + o == lp_next(i, o + p, w)) }),
+{
+    let s = i.subrange(o, i.len() as int);
+    if s.len() >= p + w {
+        assert(s[p] == i[o + p]);
+        if w == 2 { assert(s[p + 1] == i[o + p + 1]); }
+    }
+}
+
+pub open spec fn hashalg_post(i: Seq<u8>, r: IResult<&[u8], HashAlgorithm>) -> bool {
+    if i.len() < 1 { is_incomplete(r) } else { match r { Ok((rem, v)) => v.0 == i[0] && rem@ =~= i.subrange(1, i.len() as int), Err(_) => false } }
+}
+
+pub open spec fn signalg_post(i: Seq<u8>, r: IResult<&[u8], SignAlgorithm>) -> bool {
+    if i.len() < 1 { is_incomplete(r) } else { match r { Ok((rem, v)) => v.0 == i[0] && rem@ =~= i.subrange(1, i.len() as int), Err(_) => false } }
+}
+
+// DigitallySigned, RFC 5246 4.7 (hash u8, signature u8, opaque<u16>) and the RFC 2246 form (opaque<u16>)
+pub open spec fn ds_new_post(i: Seq<u8>, r: IResult<&[u8], DigitallySigned>) -> bool {
+    if i.len() < 2 || !lp_ok(i, 2, 2) { is_incomplete(r) }
+    else { match r {
+        Ok((rem, d)) => d.alg is Some && d.alg->Some_0.hash.0 == i[0] && d.alg->Some_0.sign.0 == i[1] && d.data@ =~= lp_data(i, 2, 2)
+                        && rem@ =~= i.subrange(lp_next(i, 2, 2), i.len() as int),
+        Err(_) => false } }
+}
+pub open spec fn ds_old_post(i: Seq<u8>, r: IResult<&[u8], DigitallySigned>) -> bool {
+    if !lp_ok(i, 0, 2) { is_incomplete(r) }
+    else { match r {
+        Ok((rem, d)) => d.alg is None && d.data@ =~= lp_data(i, 0, 2) && rem@ =~= i.subrange(lp_next(i, 0, 2), i.len() as int),
+        Err(_) => false } }
+}
+"""
+
+SPEC_KX = r"""
+
+
 
 // ServerDHParams (RFC 5246 7.4.3): dh_p<u16>, dh_g<u16>, dh_Ys<u16>
 pub open spec fn dh_post(i: Seq<u8>, r: IResult<&[u8], ServerDHParams>) -> bool {
@@ -48,20 +92,6 @@ pub open spec fn eccurve_post(i: Seq<u8>, r: IResult<&[u8], ECCurve>) -> bool {
     else { match r { Ok((rem, c)) => c.a@ =~= lp_data(i, 0, 1) && c.b@ =~= lp_data(i, o1, 1) && rem@ =~= i.subrange(lp_next(i, o1, 1), i.len() as int), Err(_) => false } }
 }
 
-// subrange shift: a length-prefixed field at offset p of i.subrange(o, len) is the field at o + p of i
-pub proof fn lemma_lp_shift(i: Seq<u8>, o: int, p: int, w: int)
-    requires 0 <= o <= i.len(), 0 <= p, w == 1 || w == 2,
-    ensures ({ let s = i.subrange(o, i.len() as int);
-        lp_ok(s, p, w) == lp_ok(i, o + p, w)
-        && (lp_ok(s, p, w) ==> lp_len(s, p, w) == lp_len(i, o + p, w) && lp_data(s, p, w) =~= lp_data(i, o + p, w)
-            && lp_next(s, p, w) + o == lp_next(i, o + p, w)) }),
-{
-    let s = i.subrange(o, i.len() as int);
-    if s.len() >= p + w {
-        assert(s[p] == i[o + p]);
-        if w == 2 { assert(s[p + 1] == i[o + p + 1]); }
-    }
-}
 
 // ExplicitPrimeContent (RFC 4492 5.4 explicit_prime): prime_p<u8>, curve{a<u8>, b<u8>}, base<u8>, order<u8>, cofactor<u8>
 pub open spec fn ep_offs(i: Seq<u8>) -> (int, int, int, int, int, int) {
@@ -88,12 +118,6 @@ pub open spec fn curvetype_post(i: Seq<u8>, r: IResult<&[u8], ECCurveType>) -> b
 }
 pub open spec fn namedgroup_post(i: Seq<u8>, r: IResult<&[u8], NamedGroup>) -> bool {
     if i.len() < 2 { is_incomplete(r) } else { match r { Ok((rem, v)) => v.0 as int == be16s(i, 0) && rem@ =~= i.subrange(2, i.len() as int), Err(_) => false } }
-}
-pub open spec fn hashalg_post(i: Seq<u8>, r: IResult<&[u8], HashAlgorithm>) -> bool {
-    if i.len() < 1 { is_incomplete(r) } else { match r { Ok((rem, v)) => v.0 == i[0] && rem@ =~= i.subrange(1, i.len() as int), Err(_) => false } }
-}
-pub open spec fn signalg_post(i: Seq<u8>, r: IResult<&[u8], SignAlgorithm>) -> bool {
-    if i.len() < 1 { is_incomplete(r) } else { match r { Ok((rem, v)) => v.0 == i[0] && rem@ =~= i.subrange(1, i.len() as int), Err(_) => false } }
 }
 pub open spec fn is_switch_error<T>(r: IResult<&[u8], T>, at: Seq<u8>) -> bool {
     r is Err && r->Err_0 is Error && r->Err_0->Error_0.code == ErrorKind::Switch && r->Err_0->Error_0.input@ =~= at
@@ -138,20 +162,6 @@ pub open spec fn ecdh_post(i: Seq<u8>, r: IResult<&[u8], ServerECDHParams>) -> b
                         && rem@ =~= i.subrange(lp_next(i, ecparams_len(i), 1), i.len() as int),
         Err(_) => false } }
 }
-// DigitallySigned, RFC 5246 4.7 (hash u8, signature u8, opaque<u16>) and the RFC 2246 form (opaque<u16>)
-pub open spec fn ds_new_post(i: Seq<u8>, r: IResult<&[u8], DigitallySigned>) -> bool {
-    if i.len() < 2 || !lp_ok(i, 2, 2) { is_incomplete(r) }
-    else { match r {
-        Ok((rem, d)) => d.alg is Some && d.alg->Some_0.hash.0 == i[0] && d.alg->Some_0.sign.0 == i[1] && d.data@ =~= lp_data(i, 2, 2)
-                        && rem@ =~= i.subrange(lp_next(i, 2, 2), i.len() as int),
-        Err(_) => false } }
-}
-pub open spec fn ds_old_post(i: Seq<u8>, r: IResult<&[u8], DigitallySigned>) -> bool {
-    if !lp_ok(i, 0, 2) { is_incomplete(r) }
-    else { match r {
-        Ok((rem, d)) => d.alg is None && d.data@ =~= lp_data(i, 0, 2) && rem@ =~= i.subrange(lp_next(i, 0, 2), i.len() as int),
-        Err(_) => false } }
-}
 // nom::sequence::pair(f, g): run f, then g on f's remainder; both outputs, g's remainder; errors of either
 // propagated unchanged.  ASSUMED here; OBLIGATION of Kani harness shim_pair (real nom, bounded input).
 #[verifier::external_body]
@@ -181,6 +191,8 @@ pub open spec fn cas_post<'a, T>(r1: IResult<&'a [u8], T>, ext: bool, r: IResult
     }
 }
 """
+
+SPEC = SPEC_CORE + SPEC_KX
 
 
 def lp_step(f, w, rdr):
@@ -243,7 +255,7 @@ UNIT = {
         {"file": EXP, "kind": "derived", "name": "NamedGroup", "contract": "    ensures namedgroup_post(orig_i@, r),", "splices": NT_HINT},
         {"file": EXP, "kind": "derived", "name": "HashAlgorithm", "contract": "    ensures hashalg_post(orig_i@, r),", "splices": NT_HINT},
         {"file": EXP, "kind": "derived", "name": "SignAlgorithm", "contract": "    ensures signalg_post(orig_i@, r),", "splices": NT_HINT},
-        {"file": EXP, "kind": "derived", "name": "ExplicitPrimeContent", "contract": "    ensures ep_post(orig_i@, r),", "splices": EP_HINTS},
+        {"file": EXP, "kind": "derived", "name": "ExplicitPrimeContent", "rlimit": 80, "contract": "    ensures ep_post(orig_i@, r),", "splices": EP_HINTS},
         {"file": EXP, "kind": "derived", "name": "ECParametersContent", "contract": "    ensures epc_post(orig_i@, selector.0, r),"},
         {"file": EXP, "kind": "derived", "name": "ECParameters", "contract": "    ensures ecparams_post(orig_i@, r),",
          "splices": [{"at_start": True, "text": "    let ghost i0 = orig_i@;"},
